@@ -46,3 +46,9 @@ def run(ctx):
     ctx.floor("U4", 1)
     ctx.floor("U5", 2)
     ctx.floor("U6", 1)
+    # what the derived forms override must be what runs: no copy of an overridden delegate, no call pinned to the base class
+    from ..engines import dispatch as DP
+    DP.d1_no_bypass_of_overridden_delegates(ctx, ("AbstractRule",))
+    ctx.floor("D1", 1)
+    U.u9_absent_maximum_bounds_nothing(ctx)
+    ctx.floor("U9", 1)
